@@ -53,6 +53,14 @@ def qualifier(inv, case, rec):
                 continue
             if any(sum(1 for a in t['flat'] if a['type'] == kind) > len(sh.get(kind + 's', [])) for kind in ('break', 'reload')):
                 return 'tour-with-conditional-job-used-twice'
+    if inv == 'Capacity':
+        # default static-selective hyper-heuristic over the rosomaxa population on a problem with reloads: about one run in a hundred
+        # returns a tour (with a reload) that takes a pickup while full - not reproduced by any single operator (C04 histories)
+        cfg = case.get('config', {})
+        hyper, pop = cfg.get('hyper') or {}, ((cfg.get('evolution') or {}).get('population') or {}).get('type', 'rosomaxa')
+        if hyper.get('type') == 'static-selective' and 'operators' not in hyper and pop == 'rosomaxa' \
+                and any(a['type'] == 'reload' for t in rec.get('tours', []) for a in t['flat']):
+            return 'default-static-selective-over-rosomaxa-tour-with-reload'
     if inv == 'ConditionalDistinct':
         # a break / reload used more often in a tour than the shift defines (as opposed to one that is not defined for the shift at all)
         for t in rec.get('tours', []):
@@ -296,6 +304,9 @@ def run(pid, tier):
         n = nq if tier == 'quick' else nt
         for i in range(n):
             cases.append(pgen.make_case(rnd.randrange(1 << 30), size))
+    # long tours: 25-60 jobs on few vehicles without tight constraints (length-dependent code paths)
+    for i in range(8 if tier == 'quick' else 150):
+        cases.append(pgen.long_tours(pgen.make_case(rnd.randrange(1 << 30), 'large', features={'unreachable': False, 'breaks': False, 'multishift': False})))
     outcomes = solve(pid + '-a', cases, jobs=10)
     # second pass: relations derived from returned solutions of the same problems (consistent by construction)
     rel_cases = []
